@@ -12,6 +12,8 @@
 
 #[macro_use]
 pub mod rt;
+#[macro_use]
+pub mod hv;
 pub mod spec;
 pub mod contracts;
 #[cfg(verif_replay)]
@@ -30,9 +32,13 @@ pub mod c09;
 pub mod c10;
 pub mod c12;
 pub mod c12_data;
+pub mod c13;
+pub mod c14;
+pub mod c15;
+pub mod c16;
 pub mod fma_data;
 
 /// name -> native replay entry of every harness
 pub fn table() -> impl Iterator<Item = &'static (&'static str, fn())> {
-    c01::TABLE.iter().chain(c02::TABLE.iter()).chain(c03::TABLE.iter()).chain(c04::TABLE.iter()).chain(c04::agreement::TABLE.iter()).chain(c06::TABLE.iter()).chain(c07::TABLE.iter()).chain(c08::TABLE.iter()).chain(c09::TABLE.iter()).chain(c10::TABLE.iter()).chain(c12::TABLE.iter())
+    c01::TABLE.iter().chain(c02::TABLE.iter()).chain(c03::TABLE.iter()).chain(c04::TABLE.iter()).chain(c04::agreement::TABLE.iter()).chain(c06::TABLE.iter()).chain(c07::TABLE.iter()).chain(c08::TABLE.iter()).chain(c09::TABLE.iter()).chain(c10::TABLE.iter()).chain(c12::TABLE.iter()).chain(c13::TABLE.iter()).chain(c13::solver::TABLE.iter()).chain(c14::TABLE.iter()).chain(c15::TABLE.iter()).chain(c15::solver::TABLE.iter()).chain(c16::TABLE.iter()).chain(c16::solver::TABLE.iter()).chain(c14::nopanic::TABLE.iter())
 }
